@@ -119,9 +119,101 @@ theorem C01_source_writers_emit_bytes (v : Nat) :
     BytesOK (writeInt8 v) ∧ BytesOK (writeInt16 v) ∧ BytesOK (writeInt20 v) ∧ BytesOK (writeInt31 v) := by
   refine ⟨?_, ?_, ?_, ?_⟩ <;> intro b hb <;> simp [writeInt8, writeInt16, writeInt20, writeInt31] at hb <;> omega
 
+/-! ### the integer readers: Python's `<<` / `|` / `&` on the translated side, `*` / `+` / `%` in the model -/
+
+/-- the decoder's readers: an exception (whatever kind) against the model's error, a value and the rest of the list against the model's pair -/
+def rdRes : R Nat → Py.Rd
+  | .ok (v, rest) => .ret v rest
+  | .error _ => .raised
+
+theorem C01_source_readInt8_is_the_model (data : Bytes) : dec_readInt8 data = rdRes (readInt8 data) := by
+  cases data <;> rfl
+
+theorem C01_source_readInt16_is_the_model (data : Bytes) : dec_readInt16 data = rdRes (readInt16 data) := by
+  match data with
+  | [] => rfl
+  | [_] => rfl
+  | a :: b :: r => simp [dec_readInt16, readInt16, rdRes, Nat.shiftLeft_eq]
+
+/-- `x << k | y` is `x * 2^k + y` when `y` fits below bit `k` -/
+theorem shl_or (x y k : Nat) (h : y < 2 ^ k) : x <<< k ||| y = x * 2 ^ k + y := by
+  rw [← Nat.shiftLeft_add_eq_or_of_lt h, Nat.shiftLeft_eq]
+
+/-- on bytes (every wire input is a list of bytes) the 20-bit reader is the model's -/
+theorem C01_source_readInt20_is_the_model (data : Bytes) (hb : BytesOK data) : dec_readInt20 data = rdRes (readInt20 data) := by
+  match data, hb with
+  | [], _ => rfl
+  | [_], _ => rfl
+  | [_, _], _ => rfl
+  | a :: b :: c :: r, hb =>
+    have hb2 : b < 256 := hb b (by simp)
+    have hc : c < 256 := hb c (by simp)
+    simp only [dec_readInt20, readInt20, rdRes, and15]
+    have e1 : (a % 16) <<< 16 ||| b <<< 8 = (a % 16) * 65536 + b * 256 := by
+      have : b <<< 8 < 2 ^ 16 := by rw [Nat.shiftLeft_eq] <;> try omega
+      rw [shl_or _ _ 16 this, Nat.shiftLeft_eq] <;> try omega
+    have e2 : ((a % 16) * 65536 + b * 256) ||| c = (a % 16) * 65536 + b * 256 + c := by
+      have h8 : (a % 16) * 65536 + b * 256 = ((a % 16) * 256 + b) <<< 8 := by rw [Nat.shiftLeft_eq] <;> try omega
+      rw [h8, shl_or _ _ 8 (by omega), ← Nat.shiftLeft_eq]
+    rw [e1, e2]
+
+theorem C01_source_readInt24_layout (data : Bytes) :
+    dec_readInt24 data = match data with | a :: b :: c :: r => .ret (a * 65536 + b * 256 + c) r | _ => .raised := by
+  match data with
+  | [] => rfl
+  | [_] => rfl
+  | [_, _] => rfl
+  | a :: b :: c :: r => simp [dec_readInt24, Nat.shiftLeft_eq]
+
+theorem C01_source_readInt31_is_the_model (data : Bytes) (hb : BytesOK data) : dec_readInt31 data = rdRes (readInt31 data) := by
+  match data, hb with
+  | [], _ => rfl
+  | [_], _ => rfl
+  | [_, _], _ => rfl
+  | [_, _, _], _ => rfl
+  | a :: b :: c :: e :: r, hb =>
+    have hb2 : b < 256 := hb b (by simp)
+    have hc : c < 256 := hb c (by simp)
+    have he : e < 256 := hb e (by simp)
+    simp only [dec_readInt31, readInt31, rdRes, and127]
+    have e1 : (a % 128) <<< 24 ||| b <<< 16 = ((a % 128) * 256 + b) <<< 16 := by
+      have : b <<< 16 < 2 ^ 24 := by rw [Nat.shiftLeft_eq] <;> try omega
+      rw [shl_or _ _ 24 this, Nat.shiftLeft_eq, Nat.shiftLeft_eq] <;> try omega
+    have e2 : ((a % 128) * 256 + b) <<< 16 ||| c <<< 8 = (((a % 128) * 256 + b) * 256 + c) <<< 8 := by
+      have : c <<< 8 < 2 ^ 16 := by rw [Nat.shiftLeft_eq] <;> try omega
+      rw [shl_or _ _ 16 this, Nat.shiftLeft_eq, Nat.shiftLeft_eq] <;> try omega
+    have e3 : (((a % 128) * 256 + b) * 256 + c) <<< 8 ||| e = a % 128 * 16777216 + b * 65536 + c * 256 + e := by
+      rw [shl_or _ _ 8 (by omega)] <;> try omega
+    rw [e1, e2, e3]
+
+/-- the list header reader: the model's on every token and every input -/
+theorem C01_source_readListSize_is_the_model (token : Nat) (data : Bytes) : dec_readListSize token data = rdRes (readListSize token data) := by
+  unfold dec_readListSize readListSize
+  by_cases h0 : token = 0
+  · simp [h0, rdRes]
+  · by_cases h1 : token = 248
+    · simp only [h1]; rw [C01_source_readInt8_is_the_model]; cases readInt8 data with
+      | error e => simp [rdRes]
+      | ok p => simp [rdRes]
+    · by_cases h2 : token = 249
+      · simp only [h2]; rw [C01_source_readInt16_is_the_model]; cases readInt16 data with
+        | error e => simp [rdRes]
+        | ok p => simp [rdRes]
+      · simp [h0, h1, h2, rdRes]
+
+/-- writers and readers of the translated source are inverse to each other on the ranges of the format -/
+theorem C01_source_write_then_read (v : Nat) (rest : Bytes) :
+    (v < 256 → dec_readInt8 (writeInt8 v ++ rest) = .ret v rest) ∧
+    (v < 65536 → dec_readInt16 (writeInt16 v ++ rest) = .ret v rest) := by
+  constructor
+  · intro h; simp [dec_readInt8, writeInt8]; omega
+  · intro h; simp [dec_readInt16, writeInt16, Nat.shiftLeft_eq]; omega
+
 /-- non-vacuity: runs of the translated code -/
 example : enc_packByte 251 70 = .ret 15 ∧ dec_unpackByte 251 15 = .ret 70 ∧ enc_packByte 255 46 = .ret 11 ∧ dec_unpackByte 255 11 = .ret 46 ∧
     enc_packByte 255 70 = .ret (-1) ∧ dec_unpackByte 255 12 = .raised ∧
-    enc_writeInt20 0xABCDE = .wrote [0x0A, 0xBC, 0xDE] ∧ enc_writeListStart 300 = .wrote [249, 1, 44] ∧ enc_writeListStart 65536 = .raised := by decide
+    enc_writeInt20 0xABCDE = .wrote [0x0A, 0xBC, 0xDE] ∧ enc_writeListStart 300 = .wrote [249, 1, 44] ∧ enc_writeListStart 65536 = .raised ∧
+    dec_readInt20 [0xFA, 0xBC, 0xDE, 7] = .ret 0xABCDE [7] ∧ dec_readInt31 [0xFF, 1, 2, 3] = .ret 0x7F010203 [] ∧ dec_readListSize 249 [1, 44, 9] = .ret 300 [9] ∧
+    dec_readListSize 250 [1] = .raised ∧ dec_readInt16 [5] = .raised := by decide
 
 end Yow.Coder
